@@ -456,8 +456,9 @@ theorem no_selector_one_root (v : JVal) :
     rootsSpec (modelPrims prog src tbl) [] v =
       (do let c ← (modelPrims prog src tbl).load v; pure [c]) := rfl
 
-/-- **`$file` names the current file** when the roots of a value are selected and its rules run
-    (the driver runs with the single root frame) -/
+/-- **`$file` names the current file**: in a state with a single frame, `setFile name` (the first
+    step of `valueSpec`) binds `$file` to a cell holding `name`.  (That the driver only calls it
+    in single-frame states is not proved in this file; the initial state is one: example below.) -/
 theorem file_named (name : Bytes) (s : St) (f : Frame) (hf : s.frames = [f]) :
     ∃ s', (modelPrims prog src tbl).setFile name s = .fine () s' ∧
       ∃ c, lookupFrames s'.frames b!"$file" = some c ∧ s'.heap.get c = .str name none :=
@@ -915,6 +916,98 @@ example : ∃ s', scheduleSpec PX RX [] ([fileE] ++ fileF :: []) initX = .over .
     initX st1 st2 st3 st4 st5 st5 st5 st8 st9 st10 st11 st12 (st5.heap.get rootF)
     hX1 hX2 hX3 hX4 hX5 rfl rfl hX8 hX9 hX10 hX11 hX12 _ hX13⟩
 
+/-! ### instances of the hypotheses of the one-step equations of Part 1
+    (`next_abandons_rest`: the instance given for `next_in_body` above;
+    `pattern_rules_array` / `pattern_rules_non_array`: those for `elements_in_index_order` /
+    `other_root_once`) -/
+
+/-- `rule_without_pattern`: a rule without a pattern whose body completes -/
+example : (let p := demo b!"{ print 1 }"
+    match p.rules with
+    | [r] => (match r.pattern, evalStmt p evalFuel r.body afterBeginX with
+              | none, .ok () _ => true
+              | _, _ => false)
+    | _ => false) = true := by decide +kernel
+
+/-- the state in which the rules run on the scalar root `7` (`$` bound to it) -/
+def dollar7X : St := { numStateX with ruleRoot := numStateX.root }
+
+/-- `truthy_pattern_runs`, `falsy_pattern_skips`: on `$` = 7 the pattern `$ > 1` is truthy (and the
+    body then completes), `$ > 9` is falsy -/
+example : (let p := demo b!"$ > 1 { print \"hit\" } $ > 9 { print \"no\" }"
+    match p.rules with
+    | [r1, r2] => (match r1.pattern, r2.pattern with
+        | some p1, some p2 =>
+          (match evalExpr p evalFuel p1 dollar7X, evalExpr p evalFuel p2 dollar7X with
+           | .ok c1 s1, .ok c2 s2 =>
+             (s1.heap.get c1).truthy && !(s2.heap.get c2).truthy &&
+               (match evalStmt p evalFuel r1.body s1 with | .ok () _ => true | _ => false)
+           | _, _ => false)
+        | _, _ => false)
+    | _ => false) = true := by decide +kernel
+
+/-- `beginfile_exit`: a BEGINFILE rule that executes `exit` -/
+example : (let p := demo b!"BEGINFILE { exit } { print }"
+    match evalSpecialRules p (pure (numStateX.root.getD 0)) (rulesOf p .beginFile) numStateX with
+    | .ok .exit _ => true
+    | _ => false) = true := by decide +kernel
+
+/-- `processRoot_order`, `pattern_exit_skips_endfile`: the BEGINFILE rules complete, then the
+    pattern rules complete / execute `exit` -/
+example : (let p := demo b!"BEGINFILE { print \"bf\" } { print } ENDFILE { print \"ef\" }"
+    let c := numStateX.root.getD 0
+    match evalSpecialRules p (pure c) (rulesOf p .beginFile) numStateX with
+    | .ok .continue_ s1 =>
+      (match evalPatternRules p (rulesOf p .pattern) { s1 with root := some c } with
+       | .ok () _ => true
+       | _ => false)
+    | _ => false) = true := by decide +kernel
+example : (let p := demo b!"BEGINFILE { print \"bf\" } { exit } ENDFILE { print \"ef\" }"
+    let c := numStateX.root.getD 0
+    match evalSpecialRules p (pure c) (rulesOf p .beginFile) numStateX with
+    | .ok .continue_ s1 =>
+      (match evalPatternRules p (rulesOf p .pattern) { s1 with root := some c } with
+       | .err (.sig .exit) _ => true
+       | _ => false)
+    | _ => false) = true := by decide +kernel
+
+/-- `special_rule_next`, `special_rule_exit`: with `$` a fresh null cell, the body of the BEGIN
+    rule executes `next`, that of the END rule `exit` -/
+example : (let p := demo b!"BEGIN { next } END { exit }"
+    match newCell (.nil none) afterBeginX, rulesOf p .begin_, rulesOf p .end_ with
+    | .ok c s1, [rb], [re] =>
+      (match evalStmt p evalFuel rb.body { s1 with ruleRoot := some c },
+             evalStmt p evalFuel re.body { s1 with ruleRoot := some c } with
+       | .err (.sig .next) _, .err (.sig .exit) _ => true
+       | _, _ => false)
+    | _, _, _ => false) = true := by decide +kernel
+
+/-- `begin_exit_ends_run`: the BEGIN rules end with `exit` from the initial state -/
+example : (let p := demo b!"BEGIN { print \"B\"; exit } BEGIN { print \"B2\" }"
+    match evalSpecialRules p (newCell (.nil none)) (rulesOf p .begin_) (newEvaluator p Heap.empty [] 0) with
+    | .ok .exit _ => true
+    | _ => false) = true := by decide +kernel
+
+/-- `input_exit_skips_end`, `end_after_all_input`, `files_in_order`: after the BEGIN rules of
+    `progX`, both files end the run with `exit` (`.finished .ok`), the first file alone completes
+    (`.done`, as `processFiles` and as `processFile` with fuel `bytes + 2`), and the END rules
+    complete from the state it leaves -/
+example : (let p := demo progX
+    match evalSpecialRules p (newCell (.nil none)) (rulesOf p .begin_) (newEvaluator p Heap.empty [] 0) with
+    | .ok .continue_ s1 =>
+      (match processFiles p progX expectedRuleTable [] filesX s1,
+             processFiles p progX expectedRuleTable [] (filesX.take 1) s1,
+             processFile p progX expectedRuleTable [] fileE (fileE.data.length + 2) fileE.data s1 with
+       | .finished .ok _, .done s2, .done _ =>
+         (match evalSpecialRules p (newCell (.nil none)) (rulesOf p .end_) s2 with
+          | .ok _ _ => true
+          | _ => false)
+       | _, _, _ => false)
+    | _ => false) = true := by decide +kernel
+
+/-- `exit_leaves_rules`: `exit` is an error other than `next` (a body executing `exit`: the
+    instance for `exit_in_body` above) -/
+example : Err.sig .exit ≠ .sig .next := by decide
 end examples
 
 end Jqawk.C02
